@@ -271,3 +271,16 @@ PROPS["C17"] = dict(
           "Every fault is non-trivial; distinct = distinct fault description."),
     assumptions=["feat_params.json / noisedict.txt damage may legitimately still load (text files): then the decoder must work"],
 )
+
+PROPS["C10"] = dict(
+    harness="inputs",
+    level="exploration",
+    technique="structure-aware mutation testing driven by rapidcheck (valid generated JSGF / FSG / dictionary / configuration / text inputs + 0-3 typed mutations, or raw bytes), each case in a forked child under ASan/UBSan with asserts on; returned objects are used and freed; thorough tier adds coverage-guided libFuzzer campaigns on the same entry points",
+    level_text="Valid generated inputs for the five text front doors (JSGF text; FSG text through a memory buffer of exactly its length; dictionary + filler dictionary buffers; JSON / key-value configuration; alignment text, word+pronunciation, lookup and cmn strings on a live decoder) are mutated with hostile numbers (0, -1, 1e9, 1e-320, nan, inf, 2^31, 2^63 ...), tokens of up to 100,000 bytes, nesting up to depth 20,000, dropped terminators, NUL / 0x80-0xFF / control bytes, duplicated lines, swapped fields, truncation and byte noise. The call must return (no sanitizer report, assertion, exit or timeout); accepted objects are iterated, written, transformed, installed in a decoder and decoded with, serialised and re-parsed, and freed.",
+    level_note="Trusted: ASan/UBSan, the fork runner's death classification. Semantic correctness of valid inputs is judged by C05/C13/C16; this check is about safety. Per-case timeouts (20 s) are counted as inconclusive and sampled in the evidence.",
+    quick=dict(cases=900, maxlen=700, budget=100),
+    thorough=dict(cases=30000, maxlen=700, budget=1500),
+    rule=("choices decode to (target in {jsgf, fsg, dict, config, text}, a valid generated input, 0-3 typed mutations or raw bytes). Non-trivial = the input was accepted "
+          "(an object came back and was used) or it is >= 16 bytes long; distinct = distinct input text."),
+    assumptions=["C-string APIs see the input up to its first NUL byte"],
+)
